@@ -18,7 +18,7 @@ for d in sorted(glob.glob(root + "/C*-seed*")):
     ran = ["tools/confirm_seed.sh %s (scratch worktree: demo without the change, git apply, go build ./..., demo with the change, repository suite with the change)" % name,
            "tools/seedtest.sh %s %s quick (the property's check against a scratch worktree with the change and a scratch copy of /verif)" % (name, name.split("-")[0])]
     meta["property"] = name.split("-")[0]
-    meta["origin"] = "written by an independent sub-agent from the property text only (round %d)" % {"1": 1, "2": 1, "3": 2, "4": 2}.get(name[-1], 3)
+    meta["origin"] = "written by an independent sub-agent from the property text only (round %d)" % {"1": 1, "2": 1, "3": 2, "4": 2, "5": 3, "6": 3}.get(name[-1], 4)
     meta["what_was_run"] = ran
     if conf:
         meta["confirmation"] = conf
